@@ -410,6 +410,16 @@ func (ms *Modules) Process() []error {
 		}
 	}
 
+	// Augmentation and deviation record errors on the entries they touch
+	// (duplicate nodes, unknown prefixes, invalid targets), in any module.
+	// Collect them all; errorSort removes what was already collected above.
+	for _, m := range ms.Modules {
+		errs = append(errs, ToEntry(m).GetErrors()...)
+	}
+	for _, m := range ms.SubModules {
+		errs = append(errs, ToEntry(m).GetErrors()...)
+	}
+
 	return errorSort(errs)
 }
 
